@@ -208,8 +208,9 @@ _errors = [
 
 FAMILIES += [Family('JErr', attrs={'_parso_error': Obj('PErr')}),
              Family('PErr', attrs={'start_pos': POS, 'end_pos': POS, 'message': STR})]
-FAMILIES[0].attrs.update(_Script_extra_attrs)
-FAMILIES[0].methods['_get_module_context'] = FnSpec('Script._get_module_context', ret=ANY, pure=True, assumed=True)
+_SCRIPT_FAMILY = [f for f in FAMILIES if f.name == 'Script'][0]
+_SCRIPT_FAMILY.attrs.update(_Script_extra_attrs)
+_SCRIPT_FAMILY.methods['_get_module_context'] = FnSpec('Script._get_module_context', ret=ANY, pure=True, assumed=True)
 
 NOT_DECIDED = ['exceptions raised inside type inference proper (inference/syntax_tree.py, values, gradual)',
                'RecursionError (see C15)', 'API helper exception-escape obligations under the parso model: in progress']
